@@ -164,14 +164,14 @@ Section Main.
           unfold iota in Hin. apply in_map_iff in Hin. destruct Hin as (j & Hj & Hin). apply in_seq in Hin. lia.
   Qed.
 
-  (* where the map-less fast paths agree with the specification *)
+  (* where the map-less paths agree with the specification: everywhere except for a key that EQUALS a
+     held position but is not integer-typed (1.0 on [0,1,2]): finding C02-auto-float-key.  (Negative
+     integers, out-of-range bools and None are refused since fix 041ca90: the proof below uses
+     gen_auto_lookup_validates = true, re-read from the source on every run.) *)
   Definition auto_key_ok (n : nat) (k : key C) : bool :=
-    match snd k, to_Z (fst k) with
-    | KNone, _ => false
-    | _, None => true
-    | KInt, Some z => negb ((- Z.of_nat n <=? z) && (z <? 0))
-    | KBool, Some z => (0 <=? z) && (z <? Z.of_nat n)
-    | KOther, Some z => negb ((0 <=? z) && (z <? Z.of_nat n))
+    match to_Z (fst k) with
+    | Some z => int_typed k || negb ((0 <=? z) && (z <? Z.of_nat n))
+    | None => true
     end.
 
   Lemma index_of_not_int n c : to_Z c = None -> index_of ceqb c (map of_Z (iota n)) = None.
@@ -180,47 +180,36 @@ Section Main.
     destruct Hin as (z & Hz & _). subst c. rewrite to_of in H. discriminate.
   Qed.
 
+  Lemma positions_getitem_is_valid n k : positions_getitem to_Z n k = positions_getitem_valid to_Z n k.
+  Proof. reflexivity. Qed.
+
   Lemma auto_lookup_refines n k : auto_key_ok n k = true ->
     M_loc_to_iloc ceqb to_Z (M_index_auto of_Z n) k = S_lookup ceqb (map of_Z (iota n)) k.
   Proof.
-    unfold auto_key_ok, M_loc_to_iloc, S_lookup, M_index_auto, positions_getitem. cbn [ix_map ix_labels].
+    unfold auto_key_ok, M_loc_to_iloc, S_lookup, M_index_auto. cbn [ix_map ix_labels].
+    rewrite positions_getitem_is_valid. unfold positions_getitem_valid, key_int.
     unfold zlen. rewrite map_length, iota_length.
-    destruct k as [c t]. cbn [fst snd].
-    destruct Gen_c02.gen_auto_lookup_validates.
-    - (* validated variant *)
-      unfold positions_getitem_valid, key_int, int_typed. cbn [fst snd].
-      destruct (to_Z c) as [z|] eqn:Ez.
-      + apply of_to in Ez as Hc. subst c. rewrite index_of_auto. destruct t; intros G; rewrite ?to_of.
-        * destruct ((0 <=? z) && (z <? Z.of_nat n)); reflexivity.
-        * rewrite G. reflexivity.
-        * discriminate.
-        * destruct ((0 <=? z) && (z <? Z.of_nat n)) eqn:B; [discriminate|reflexivity].
-      + rewrite (index_of_not_int n c Ez). destruct t; intros G; rewrite ?Ez; reflexivity.
-    - (* raw variant: the key is returned as NumPy accepted it *)
-      unfold positions_getitem_raw. cbn [fst snd].
-      destruct (to_Z c) as [z|] eqn:Ez.
-      + apply of_to in Ez as Hc. subst c. rewrite index_of_auto. destruct t; intros G.
-        * destruct ((- Z.of_nat n <=? z) && (z <? Z.of_nat n)) eqn:A,
-            ((0 <=? z) && (z <? Z.of_nat n)) eqn:B; try reflexivity; lia.
-        * rewrite G. reflexivity.
-        * discriminate.
-        * destruct ((0 <=? z) && (z <? Z.of_nat n)) eqn:B; [discriminate|reflexivity].
-      + rewrite (index_of_not_int n c Ez). destruct t; intros G; try reflexivity. discriminate.
+    destruct k as [c t]. cbn [fst].
+    destruct (to_Z c) as [z|] eqn:Ez.
+    - apply of_to in Ez as Hc. subst c. rewrite index_of_auto.
+      destruct (int_typed (of_Z z, t)); cbn [orb]; intros G; cbv iota.
+      + rewrite ?to_of. destruct ((0 <=? z) && (z <? Z.of_nat n)); reflexivity.
+      + apply negb_true_iff in G. rewrite G. reflexivity.
+    - intros _. rewrite (index_of_not_int n c Ez). destruct (int_typed (c, t)); cbv iota; rewrite ?Ez; reflexivity.
   Qed.
 
   Lemma auto_contains_refines n k : auto_key_ok n k = true ->
     M_contains ceqb to_Z (M_index_auto of_Z n) k = S_contains ceqb (map of_Z (iota n)) k.
   Proof.
-    unfold auto_key_ok, M_contains, S_contains, M_index_auto, key_int, int_typed. cbn [ix_map ix_labels].
+    unfold auto_key_ok, M_contains, S_contains, M_index_auto, key_int. cbn [ix_map ix_labels].
     unfold zlen. rewrite map_length, iota_length, (index_of_memb C ceqb ceqb_spec).
-    destruct k as [c t]. cbn [fst snd].
+    destruct k as [c t]. cbn [fst].
     destruct (to_Z c) as [z|] eqn:Ez.
-    - apply of_to in Ez as Hc. subst c. rewrite index_of_auto. destruct t; intros G.
-      + destruct ((0 <=? z) && (z <? Z.of_nat n)); reflexivity.
-      + rewrite G. reflexivity.
-      + discriminate.
-      + destruct ((0 <=? z) && (z <? Z.of_nat n)) eqn:B; [discriminate|reflexivity].
-    - rewrite (index_of_not_int n c Ez). destruct t; intros G; reflexivity.
+    - apply of_to in Ez as Hc. subst c. rewrite index_of_auto.
+      destruct (int_typed (of_Z z, t)); cbn [orb]; intros G; cbv iota.
+      + rewrite ?to_of. destruct ((0 <=? z) && (z <? Z.of_nat n)); reflexivity.
+      + apply negb_true_iff in G. rewrite G. reflexivity.
+    - intros _. rewrite (index_of_not_int n c Ez). destruct (int_typed (c, t)); cbv iota; rewrite ?Ez; reflexivity.
   Qed.
 
   Theorem M_auto_refines n probes : forallb (auto_key_ok n) probes = true ->
